@@ -11,10 +11,11 @@ Section OnModule.
   Variable bi ids : list ident.
   Variable init call : ident.
   Variable odd : list ident.
+  Variable prop : ident.
   Variable kwl : list N.
 
   Definition m_inh := inh_of (fst (rope_inh bi (rope_tree p) ids)).
-  Definition m_meths := methods odd p.
+  Definition m_meths := methods odd prop p.
   Definition m_pn := rope_pyname_at bi m_inh (rope_tree p) init call m_meths (kw_of kwl).
   Definition m_occs := rope_occurrences bi m_inh (rope_tree p) init call m_meths (kw_of kwl) (toks p).
   Definition m_spec := spec_binding bi (spec_tree nl p).
@@ -93,119 +94,120 @@ End OnModule.
 Lemma header_default_refuted :
   in_fragment_C15 w_header_expression = true
   /\ m_frag w_header_expression bi_header_expression ids_header_expression init_header_expression
-            call_header_expression odd_header_expression kwl_header_expression = false
+            call_header_expression odd_header_expression prop_header_expression kwl_header_expression = false
   /\ unsound w_header_expression nl_header_expression bi_header_expression ids_header_expression
-             init_header_expression call_header_expression odd_header_expression kwl_header_expression.
+             init_header_expression call_header_expression odd_header_expression prop_header_expression kwl_header_expression.
 Proof.
   split; [vm_compute; reflexivity|]. split; [vm_compute; reflexivity|].
-  apply (unsound_b_true _ _ _ _ _ _ _ _ 14%N). vm_compute. reflexivity.
+  apply (unsound_b_true _ _ _ _ _ _ _ _ _ 14%N). vm_compute. reflexivity.
 Qed.
 
 Lemma header_class_attribute_refuted :
   in_fragment_C15 w_header_class_attribute = true
   /\ m_frag w_header_class_attribute bi_header_class_attribute ids_header_class_attribute
-            init_header_class_attribute call_header_class_attribute odd_header_class_attribute
+            init_header_class_attribute call_header_class_attribute odd_header_class_attribute prop_header_class_attribute
             kwl_header_class_attribute = false
   /\ unsound w_header_class_attribute nl_header_class_attribute bi_header_class_attribute
              ids_header_class_attribute init_header_class_attribute call_header_class_attribute
-             odd_header_class_attribute kwl_header_class_attribute.
+             odd_header_class_attribute prop_header_class_attribute kwl_header_class_attribute.
 Proof.
   split; [vm_compute; reflexivity|]. split; [vm_compute; reflexivity|].
-  apply (unsound_b_true _ _ _ _ _ _ _ _ 0%N). vm_compute. reflexivity.
+  apply (unsound_b_true _ _ _ _ _ _ _ _ _ 0%N). vm_compute. reflexivity.
 Qed.
 
 Lemma comprehension_first_iterable_refuted :
   in_fragment_C15 w_comprehension_first_iterable = true
   /\ m_frag w_comprehension_first_iterable bi_comprehension_first_iterable ids_comprehension_first_iterable
             init_comprehension_first_iterable call_comprehension_first_iterable
-            odd_comprehension_first_iterable kwl_comprehension_first_iterable = false
+            odd_comprehension_first_iterable prop_comprehension_first_iterable kwl_comprehension_first_iterable = false
   /\ unsound w_comprehension_first_iterable nl_comprehension_first_iterable bi_comprehension_first_iterable
              ids_comprehension_first_iterable init_comprehension_first_iterable
-             call_comprehension_first_iterable odd_comprehension_first_iterable
+             call_comprehension_first_iterable odd_comprehension_first_iterable prop_comprehension_first_iterable
              kwl_comprehension_first_iterable.
 Proof.
   split; [vm_compute; reflexivity|]. split; [vm_compute; reflexivity|].
-  apply (unsound_b_true _ _ _ _ _ _ _ _ 9%N). vm_compute. reflexivity.
+  apply (unsound_b_true _ _ _ _ _ _ _ _ _ 9%N). vm_compute. reflexivity.
 Qed.
 
 Lemma class_name_own_attribute_refuted :
   in_fragment_C15 w_class_name_own_attribute = true
   /\ m_frag w_class_name_own_attribute bi_class_name_own_attribute ids_class_name_own_attribute
-            init_class_name_own_attribute call_class_name_own_attribute odd_class_name_own_attribute
+            init_class_name_own_attribute call_class_name_own_attribute odd_class_name_own_attribute prop_class_name_own_attribute
             kwl_class_name_own_attribute = false
   /\ unsound w_class_name_own_attribute nl_class_name_own_attribute bi_class_name_own_attribute
              ids_class_name_own_attribute init_class_name_own_attribute call_class_name_own_attribute
-             odd_class_name_own_attribute kwl_class_name_own_attribute
+             odd_class_name_own_attribute prop_class_name_own_attribute kwl_class_name_own_attribute
   /\ incomplete w_class_name_own_attribute nl_class_name_own_attribute bi_class_name_own_attribute
                 ids_class_name_own_attribute init_class_name_own_attribute call_class_name_own_attribute
-                odd_class_name_own_attribute kwl_class_name_own_attribute.
+                odd_class_name_own_attribute prop_class_name_own_attribute kwl_class_name_own_attribute.
 Proof.
   split; [vm_compute; reflexivity|]. split; [vm_compute; reflexivity|]. split.
-  - apply (unsound_b_true _ _ _ _ _ _ _ _ 5%N). vm_compute. reflexivity.
-  - apply (incomplete_b_true _ _ _ _ _ _ _ _ 18%N). vm_compute. reflexivity.
+  - apply (unsound_b_true _ _ _ _ _ _ _ _ _ 5%N). vm_compute. reflexivity.
+  - apply (incomplete_b_true _ _ _ _ _ _ _ _ _ 18%N). vm_compute. reflexivity.
 Qed.
 
 Lemma kwarg_unresolved_callee_refuted :
   in_fragment_C15 w_kwarg_unresolved_callee = true
   /\ keyword_as_variable w_kwarg_unresolved_callee bi_kwarg_unresolved_callee ids_kwarg_unresolved_callee
                          init_kwarg_unresolved_callee call_kwarg_unresolved_callee
-                         odd_kwarg_unresolved_callee kwl_kwarg_unresolved_callee.
+                         odd_kwarg_unresolved_callee prop_kwarg_unresolved_callee kwl_kwarg_unresolved_callee.
 Proof.
   split; [vm_compute; reflexivity|].
-  apply (keyword_as_variable_b_true _ _ _ _ _ _ _ 8%N). vm_compute. reflexivity.
+  apply (keyword_as_variable_b_true _ _ _ _ _ _ _ _ 8%N). vm_compute. reflexivity.
 Qed.
 
 Lemma unresolved_import_conflation_refuted :
   in_fragment_C15 w_unresolved_import_conflation = true
   /\ m_frag w_unresolved_import_conflation bi_unresolved_import_conflation ids_unresolved_import_conflation
             init_unresolved_import_conflation call_unresolved_import_conflation
-            odd_unresolved_import_conflation kwl_unresolved_import_conflation = false
+            odd_unresolved_import_conflation prop_unresolved_import_conflation kwl_unresolved_import_conflation = false
   /\ unsound w_unresolved_import_conflation nl_unresolved_import_conflation bi_unresolved_import_conflation
              ids_unresolved_import_conflation init_unresolved_import_conflation
-             call_unresolved_import_conflation odd_unresolved_import_conflation
+             call_unresolved_import_conflation odd_unresolved_import_conflation prop_unresolved_import_conflation
              kwl_unresolved_import_conflation.
 Proof.
   split; [vm_compute; reflexivity|]. split; [vm_compute; reflexivity|].
-  apply (unsound_b_true _ _ _ _ _ _ _ _ 13%N). vm_compute. reflexivity.
+  apply (unsound_b_true _ _ _ _ _ _ _ _ _ 13%N). vm_compute. reflexivity.
 Qed.
 
 Lemma param_default_of_rebound_def_refuted :
   in_fragment_C15 w_param_default_of_rebound_def = true
   /\ m_frag w_param_default_of_rebound_def bi_param_default_of_rebound_def ids_param_default_of_rebound_def
             init_param_default_of_rebound_def call_param_default_of_rebound_def
-            odd_param_default_of_rebound_def kwl_param_default_of_rebound_def = false
+            odd_param_default_of_rebound_def prop_param_default_of_rebound_def kwl_param_default_of_rebound_def = false
   /\ incomplete w_param_default_of_rebound_def nl_param_default_of_rebound_def bi_param_default_of_rebound_def
                 ids_param_default_of_rebound_def init_param_default_of_rebound_def
-                call_param_default_of_rebound_def odd_param_default_of_rebound_def
+                call_param_default_of_rebound_def odd_param_default_of_rebound_def prop_param_default_of_rebound_def
                 kwl_param_default_of_rebound_def.
 Proof.
   split; [vm_compute; reflexivity|]. split; [vm_compute; reflexivity|].
-  apply (incomplete_b_true _ _ _ _ _ _ _ _ 11%N). vm_compute. reflexivity.
+  apply (incomplete_b_true _ _ _ _ _ _ _ _ _ 11%N). vm_compute. reflexivity.
 Qed.
 
 (* ------------------------------------------------------------------ non-vacuity *)
 (* the example module (a global, a function with a defaulted parameter, a class with class and instance
    attributes, keyword arguments of a function and of a class with __init__, a global declaration, a
-   comprehension whose variable shadows a global) is inside the domain of the theorems; it has 48 identifier
-   tokens of which 40 are core tokens *)
+   comprehension whose variable shadows a global) is inside the domain of the theorems; it has 49 identifier
+   tokens of which 41 are core tokens *)
 Lemma example_in_fragment :
-  m_frag w_example bi_example ids_example init_example call_example odd_example kwl_example = true
-  /\ length (toks w_example) = 48%nat
-  /\ length (filter core (toks w_example)) = 40%nat.
+  m_frag w_example bi_example ids_example init_example call_example odd_example prop_example kwl_example = true
+  /\ length (toks w_example) = 49%nat
+  /\ length (filter core (toks w_example)) = 41%nat.
 Proof. vm_compute. auto. Qed.
 
 Definition ids_of (l : list tok) : list N := map t_id l.
 Definition example_occs (i : N) : option (list N) :=
-  option_map (fun q => ids_of (m_occs w_example bi_example ids_example init_example call_example odd_example
+  option_map (fun q => ids_of (m_occs w_example bi_example ids_example init_example call_example odd_example prop_example
                                       kwl_example q)) (tok_by_id w_example i).
 
-(* [limit]: the module-level binding (3) is used by print (135), not by the parameters of grow / use nor by
+(* [limit]: the module-level binding (3) is used by the default value of scale's parameter (14, a header token
+   that rope evaluates inside scale) and by print (135), not by the parameters of grow / use nor by
    the comprehension variable (123, 125); [size] under the global declaration in use (97, 99, 108) is the
    module's size (116, 129); [factor]: the parameter (12, 22) with its keyword arguments (71, 106); the
    attribute size of Box (30, 46, 63, 69, 83); the parameter size of __init__ (39, 48) with the keyword
    argument of Box(size=...) (79) *)
 Lemma example_occurrences :
-  example_occs 3 = Some [3; 135]%N
+  example_occs 3 = Some [3; 14; 135]%N
   /\ example_occs 99 = Some [97; 99; 108; 116; 129]%N
   /\ example_occs 12 = Some [12; 22; 71; 106]%N
   /\ example_occs 30 = Some [30; 46; 63; 69; 83]%N
